@@ -201,15 +201,15 @@ mod electrical_resistance {
 mod energy {
     use super::*;
     use uom::si::energy::{
-        electronvolt, joule, kilojoule, megajoule, megawatt_hour, microjoule, milliwatt_hour,
-        watt_hour, Energy,
+        electronvolt, joule, kilojoule, megajoule, megawatt_hour, microjoule, millijoule,
+        milliwatt_hour, watt_hour, Energy,
     };
 
     impl_unit![uom::si::energy::Conversion<V>, Energy, joule;
         b"MAJ" => megajoule,
         b"KJ" => kilojoule,
         b"J" => joule,
-        b"MJ" => megajoule,
+        b"MJ" => millijoule,
         b"UJ" => microjoule,
         // Watt-hour
         b"MAW.HR" => megawatt_hour,
